@@ -501,6 +501,8 @@ def _shipped_configs():
     import glob
     top = sorted(glob.glob(os.path.join(native.REPO, 'yaml', '*.yaml')))
     reg = sorted(glob.glob(os.path.join(native.REPO, 'gym_gridverse', 'registered_envs', '*.yaml')))
+    if not top:
+        top = reg      # scratch copies of the package only carry the packaged configurations
     return top, reg
 
 
@@ -646,7 +648,7 @@ def _traj_case(args):
                                                if inner.state_space.can_be_represented else None))
         genv = GymEnvironment(outer)
         o = genv.reset()
-        for t in range(min(steps, 25)):
+        for t in range(steps):
             i = r.randrange(genv.action_space.n)
             o, rew, done, info = genv.step(i)
             out['evaluations'] += 1
